@@ -317,7 +317,7 @@ def bitop(op, a, b, ty):
 
 class Engine:
     FUEL = 400_000
-    def __init__(s, fns, enums, feas_timeout_ms=3000):
+    def __init__(s, fns, enums, feas_timeout_ms=250):
         s.fns = fns; s.enums = dict(STD_ENUMS); s.enums.update(enums)
         s.by_last = {}
         for f in fns: s.by_last.setdefault(f.name.split('::')[-1], []).append(f)
@@ -327,7 +327,7 @@ class Engine:
         for f in fns:
             if '{closure#' in f.name and f.params:
                 s.closures[re.sub(r'^&(mut )?', '', f.params[0][1]).strip()] = f
-        s.solver = z3.Solver(); s.solver.set('timeout', feas_timeout_ms)
+        s.solver = z3.Solver(); s.solver.set('timeout', feas_timeout_ms); s.feas_timeout_full = 3000
         s.stubs = {}; s.models = []; s.steps = 0; s.total_steps = 0
         s.used_models = set(); s.used_fns = set(); s.used_stubs = set()
         s.feas_queries = 0; s.feas_unknown = 0
@@ -355,7 +355,10 @@ class Engine:
     def feasible(s, c):
         s._sync(); s.solver.push(); s.solver.add(c); r = s.solver.check(); s.solver.pop()
         s.feas_queries += 1
-        if r == z3.unknown: s.feas_unknown += 1
+        if r == z3.unknown:
+            # the incremental core gives up quickly on ToInt/IsInt/UF mixes that the full (non-incremental) pipeline decides at once
+            f = z3.Solver(); f.set('timeout', s.feas_timeout_full); f.add(*s.pc); f.add(c); r = f.check()
+            if r == z3.unknown: s.feas_unknown += 1
         return r != z3.unsat
 
     def choose(s, conds):
@@ -518,7 +521,7 @@ class Engine:
         if m: return z3.IntVal(int(m.group(1), 16))
         m = re.fullmatch(r'(-?[0-9.]+(?:[eE][-+]?[0-9]+)?)f(?:64|32)', t)
         if m: return s.mk_f64(m.group(1))
-        m = re.fullmatch(r'(-?)inf(?:f64)?|f64::(INFINITY|NEG_INFINITY|NAN)', t)
+        m = re.fullmatch(r'(-?)inf(?:f64)?|(?:core::|std::)?f64::(?:<impl f64>::)?(INFINITY|NEG_INFINITY|NAN)', t)
         if m: return F64(2 if (m.group(1) or m.group(2) == 'NEG_INFINITY') else (0 if m.group(2) == 'NAN' else 1), 0)
         if t in ('NaNf64', 'NaN'): return F64(0, 0)
         if re.fullmatch(r'[\w:<>, {}@.#\[\]&\'()\-=]+', t): return FnItem(t)
